@@ -1148,6 +1148,8 @@ def check_tables(world, fname, tabs):
     # (b) positional truth: cell (i, j) vs the constraint the class generates for samples (i, j)
     for c in calls:
         key = c["name"]
+        if c.get("unknown"):
+            continue
         if key not in tabs:
             if len(c["l1"]) > 0 and (c["l2"] is None or len(c["l2"]) > 0):
                 world.violation("O-TABLES", "no-table-for-condition", {"condition": key, "tables": sorted(tabs)})
